@@ -22,9 +22,15 @@ def force_table(ctx, facts, fnpath, jt_adt, rule):
         return None
     ctx.analysed_fns.add(fnpath)
     tab = {}
-    jarg = [i for i, (t, n) in enumerate(rec['locals']) if n == 'join_type' and 0 < i <= rec['argc']][0]
-    larg = [i for i, (t, n) in enumerate(rec['locals']) if n == 'is_left' and 0 < i <= rec['argc']][0]
-    for jtv in enum_domain(facts, jt_adt, True):
+    # parameters are found by type (the join type and the single bool), not by name
+    jargs = [i for i, (t, n) in enumerate(rec['locals']) if 0 < i <= rec['argc'] and t.lstrip('&') == jt_adt]
+    largs = [i for i, (t, n) in enumerate(rec['locals']) if 0 < i <= rec['argc'] and t == 'bool']
+    if len(jargs) != 1 or len(largs) != 1:
+        ctx.undecided(rule, fnpath, 'expected exactly one JoinType and one bool parameter')
+        return None
+    jarg, larg = jargs[0], largs[0]
+    byref = rec['locals'][jarg][0].startswith('&')
+    for jtv in enum_domain(facts, jt_adt, byref):
         for il in (0, 1):
             args = [TOP] * rec['argc']
             args[jarg - 1] = jtv
@@ -33,10 +39,19 @@ def force_table(ctx, facts, fnpath, jt_adt, rule):
                 outs = Explorer(facts).run(rec, args)
                 vals = set(strip(o.ret) for o in outs)
             else:
-                outs = Explorer(facts, inline_depth=0, observe=('force_nullable',)).run(rec, args)
-                vals = set(strip(dict(o.obs).get('force_nullable', TOP)) for o in outs)
+                # forced nullable <=> every path calls Field::with_nullable(.., true); not forced <=> no path does
+                outs = Explorer(facts, inline_depth=0, watch=('arrow_schema::field::Field::with_nullable',)).run(rec, args)
+                per = set()
+                for o in outs:
+                    w = [e for e in o.events if e[0] == 'callargs' and e[1].endswith('Field::with_nullable')]
+                    on = [e for e in w if isinstance(strip(e[2][1]), I) and strip(e[2][1]).n == 1]
+                    if w and len(on) != len(w):
+                        per.add(TOP)
+                    else:
+                        per.add(I(1 if on else 0))
+                vals = per
             if len(vals) != 1 or not isinstance(next(iter(vals)), I):
-                ctx.undecided(rule, '%s(%s,%d)' % (fnpath, strip(jtv).name, il), 'force_nullable not constant')
+                ctx.undecided(rule, '%s(%s,%d)' % (fnpath, strip(jtv).name, il), 'whether the field is forced nullable is not a constant of (join type, side)')
                 return None
             tab[(strip(jtv).name, 1 - il)] = bool(next(iter(vals)).n)   # key: (jt, side) side 0 = left
     return tab
